@@ -196,10 +196,41 @@ def r3_generated(a, tier):
     )
     gen = 'tatsu.ngcodegen.ngparser_gen.PythonParserGenerator'
     gk = a.p.func(f'{gen}.gen_keywords')
-    ok = any(isinstance(n, ast.Attribute) and norm(n) == f'{gk.params[1]}.keywords' for n in walk_no_defs(gk.node))
-    rep.add({'gen_keywords_reads_grammar.keywords': ok})
-    if not ok:
-        rep.fail(gk.qualname, 'keywords-source', 'gen_keywords does not emit grammar.keywords', gk.loc)
+    # gen_keywords interpreted on stand-in grammars; the emitted `KEYWORDS = (...)` is read back with ast.literal_eval
+    import contextlib
+
+    from ..minieval import Unsupported
+    from ..modelinterp import Hook, ModelInterp, Stub
+    long_table = [f'kw{i:02d}{"x" * (i % 7)}' for i in range(40)]
+    for what, kws in (('no keywords', []), ('one keyword', ['if']), ('three keywords', ['while', 'if', 'else']),
+                      ('a keyword with a quote', ["it's", 'END']), ('forty keywords (more than one line of 88 columns)', long_table)):
+        out = []
+        genobj = Stub(gen, print=Hook(lambda *x, **_k: out.append(' '.join(str(y) for y in x))),
+                      indent=Hook(lambda *_a, **_k: contextlib.nullcontext()),
+                      fitsfmt=Hook(lambda line, addlevels=1, **_k: len(line) + 4 * addlevels <= 88))
+        grammar = Stub('tatsu.peg.base.Grammar', keywords=tuple(kws))
+        try:
+            ModelInterp(a).call_fn(gk, [genobj, grammar])
+        except Unsupported as e:
+            raise AnalysisError(f'cannot interpret {gk.qualname}: {e}') from e
+        text = '\n'.join(out)
+        got = None
+        try:
+            tree = ast.parse(text)
+            for st in tree.body:
+                if isinstance(st, ast.Assign) and norm(st.targets[0]) == 'KEYWORDS':
+                    got = ast.literal_eval(st.value)
+        except (SyntaxError, ValueError):
+            got = None
+        ok = isinstance(got, tuple) and sorted(got) == sorted(kws)
+        rep.add({'gen_keywords': what, 'table_read_back': (list(got)[:6] if isinstance(got, tuple) else repr(got)), 'entries': len(got) if isinstance(got, tuple) else None,
+                 'declared': len(kws), 'ok': ok})
+        if not ok:
+            lost = sorted(set(kws) - set(got or ())) if isinstance(got, tuple) else kws
+            extra = sorted(set(got or ()) - set(kws)) if isinstance(got, tuple) else []
+            rep.fail(gk.qualname, f'keyword-table:{what}', f'gen_keywords for {what}: the emitted KEYWORDS table reads back as '
+                     f'{len(got) if isinstance(got, tuple) else repr(got)} entries; not reserved in the generated parser: {lost[:6]}; reserved '
+                     f'although never declared: {extra[:6]} (adjacent string literals are concatenated by Python)', gk.loc)
     gi = a.p.func(f'{gen}._gen_init')
     text = ' '.join(n.value for n in ast.walk(gi.node) if isinstance(n, ast.Constant) and isinstance(n.value, str))
     for needle in ('keywords=KEYWORDS', 'ignorecase='):
